@@ -84,7 +84,7 @@ def getAsIntM (bitness : Option Nat) (unsigned : Bool) (v : Int) : M Nat :=
 inductive RegRef
   | named (r : Nat)
   | pct (v : Int)
-deriving Repr, DecidableEq
+deriving Repr, DecidableEq, Inhabited
 
 /-- an operand after classification of its syntactic form, expressions evaluated -/
 inductive Operand
@@ -102,7 +102,7 @@ inductive Operand
   | expr (v : Int)                   -- `e`   (relative / branch target / inline number)
   | exprDef (v : Int)                -- `@e`  (relative deferred)
   | acc (n : Nat)                    -- `ac0`…`ac5`
-deriving Repr, DecidableEq
+deriving Repr, DecidableEq, Inhabited
 
 /-- `try_as_register` (value known at once): a named register is its number, `%e` goes
     through `get_as_int(bitness=3, unsigned=True)` -/
